@@ -147,6 +147,14 @@ func Apply(db gdbi.GraphDB, prefix string, call map[string]interface{}) (res str
 	case "DelEdge":
 		id, _ := call["id"].(string)
 		return fail(gi.DelEdge(id))
+	case "AddIndex":
+		l, _ := call["label"].(string)
+		f, _ := call["field"].(string)
+		return fail(gi.AddVertexIndex(l, f))
+	case "DeleteIndex":
+		l, _ := call["label"].(string)
+		f, _ := call["field"].(string)
+		return fail(gi.DeleteVertexIndex(l, f))
 	}
 	return "harness", "unknown op " + op
 }
@@ -252,6 +260,12 @@ func ObserveGraph(gi gdbi.GraphInterface) (obs map[string]interface{}) {
 	}
 	sort.Strings(el)
 	obs["vlabels"], obs["elabels"] = vl, el
+	ixl := []string{}
+	for i := range gi.GetVertexIndexList() {
+		ixl = append(ixl, i.Graph+"|"+i.Label+"|"+i.Field)
+	}
+	sort.Strings(ixl)
+	obs["indices"] = ixl
 	by := map[string][]string{}
 	for _, l := range VLabels {
 		ids := []string{}
@@ -293,6 +307,18 @@ func Observe(db gdbi.GraphDB, prefix string) map[string]interface{} {
 		}
 		o := ObserveGraph(gi)
 		o["ts"] = gi.GetTimestamp()
+		// index registrations: every listed entry must name the graph it was listed for
+		if ixl, ok := o["indices"].([]string); ok {
+			short, named := []string{}, true
+			for _, e := range ixl {
+				t := strings.SplitN(e, "|", 2)
+				if t[0] != name {
+					named = false
+				}
+				short = append(short, t[len(t)-1])
+			}
+			o["indices"], o["indices_named"] = short, named
+		}
 		o["listed"] = listed[name]
 		out[g] = o
 	}
